@@ -121,4 +121,4 @@ def run(ctx):
     ctx.evaluations = len(forced) + sum(len(c) - 11 for c in cases)
     ctx.distinct_nontrivial = len(forced) + nt
     ctx.search_stats = {"forced_hash_cases": len(forced), "text_cases": len(cases), "listed_standalone_occurrences": nt}
-    ctx.samples = [{"case": forced[0], "impl": i[0]}, {"line": cases[1][11], "list": cases[1][4], "impl": textgen.outlines(i2[1])[0]}]
+    ctx.samples = [{"case": forced[0], "impl": i[0]}, dict(textgen.sample(cases[1], i2[1]), list=cases[1][4])]
